@@ -54,7 +54,12 @@ func newEnv() (*env, error) {
 	return e, nil
 }
 
-func (e *env) cleanup() { os.RemoveAll(e.scratch) }
+func (e *env) cleanup() {
+	if os.Getenv("VERIF_GEN_KEEP") != "" { // development aid
+		return
+	}
+	os.RemoveAll(e.scratch)
+}
 
 // run executes a command and returns combined output, exit status and duration.
 func runCmd(dir string, envv []string, stdin []byte, name string, args ...string) (stdout, stderr []byte, err error, dt time.Duration) {
